@@ -68,6 +68,29 @@ class Grammars:
         self.acc = {x["key"]: mk(D.apply_edits(d["trail"], x["edits"])) for x in CD.ACCEPT}
         self.rej = {x["key"]: mk(D.apply_edits(d["rules"], x["edits"])) for x in CD.REJECT}
         self.bang = list(d["tok"]["bang"])
+        self._mk = mk
+        self._subset = {}
+
+    def subset_grammar(self, which, keys):
+        """grammar with only the listed deltas applied (cached)"""
+        kk = (which, tuple(sorted(keys)))
+        if kk not in self._subset:
+            base = self.d["trail"] if which == "acc" else self.d["rules"]
+            table = CD.ACCEPT if which == "acc" else CD.REJECT
+            edits = [e for x in table if x["key"] in keys for e in x["edits"]]
+            self._subset[kk] = self._mk(D.apply_edits(base, edits))
+        return self._subset[kk]
+
+    def explain(self, which, kinds):
+        """smallest set of known deltas that explains the discrepancy (accept: makes it a sentence; reject: excludes it)"""
+        import itertools
+        table = [x["key"] for x in (CD.ACCEPT if which == "acc" else CD.REJECT)]
+        for size in (1, 2, 3):
+            for ks in itertools.combinations(table, size):
+                rec = self.subset_grammar(which, ks).recognise(kinds)
+                if rec == (which == "acc"):
+                    return list(ks)
+        return table
 
     def lex_lit(self, s):
         return (self.T[s], s)
@@ -157,15 +180,13 @@ def classify(gr, kinds, has_err):
     if gr.doc.recognise(kinds):
         if not has_err:
             return ("ok", [])
-        ks = [k for k, g in gr.rej.items() if not g.recognise(kinds)]
-        return ("known-rejected", ks) if ks else ("rejected", [])
+        return ("known-rejected", gr.explain("rej", kinds))
     if gr.trail.recognise(kinds):
         return ("ok", [])             # only derivable with a trailing separator: nothing is demanded
     if has_err:
         return ("ok", [])
     if gr.sound.recognise(kinds):
-        ks = [k for k, g in gr.acc.items() if g.recognise(kinds)]
-        return ("known-accepted", ks or [x["key"] for x in CD.ACCEPT if True][:0] or ["accepts:combination"])
+        return ("known-accepted", gr.explain("acc", kinds))
     return ("accepted", [])
 
 
@@ -234,7 +255,7 @@ def accessor_findings(tree, walk):
 
 
 def corpus_files():
-    fs = sorted(glob.glob(os.path.join(vlib.VERIF, "corpus", "llvm", "*.td")))
+    fs = sorted(glob.glob(os.path.join(vlib.VERIF, "corpus", "llvm14", "**", "*.td"), recursive=True))
     if not fs:
         fs = sorted(glob.glob("/usr/include/llvm-14/llvm/**/*.td", recursive=True))
     return fs
@@ -291,6 +312,7 @@ def run(ctx):
     known_examples = {}
     distinct = set()
     must_clean = []
+    acc_pool = []
     for (s, t), r in zip(cases, res):
         if "leaves" not in r:
             stats["panic"] += 1
@@ -311,15 +333,21 @@ def run(ctx):
         elif not gr.trail.recognise(kinds):
             nneg += 1
         if v in ("rejected", "accepted"):
-            sig = r["errors"][0][2] if has_err else "accepted"
-            cur = worst.get((v, sig))
-            if cur is None or len(s) < len(cur[0]):
-                worst[(v, sig)] = (s, t, r)
+            if has_err:
+                sig = r["errors"][0][2]
+                cur = worst.get((v, sig))
+                if cur is None or len(s) < len(cur[0]):
+                    worst[(v, sig)] = (s, t, r)
+            else:
+                acc_pool.append((s, t, r))
         elif v.startswith("known"):
             for k in ks:
                 cur = known_examples.get(k)
                 if cur is None or len(t) < len(cur):
                     known_examples[k] = t
+    acc_pool.sort(key=lambda x: len(x[0]))
+    for i, c in enumerate(acc_pool[:12]):
+        worst[("accepted", "accepted-%d" % i)] = c
     # ---- verdicts on the generated inputs
     for k, t in sorted(known_examples.items()):
         what = next((x["what"] for x in CD.ACCEPT + CD.REJECT if x["key"] == k), "combination of known deltas")
@@ -329,17 +357,21 @@ def run(ctx):
             found = True
             ctx.violation("C04 delta between the documented grammar and the parser that is not listed in known_findings.txt: %s (%s), input %r" % (k, what, t),
                           {"property": "C04", "kind": "known-delta-not-listed", "key": k, "input": t, "what": what, "seed": ctx.seed})
-    reported = 0
-    for (v, sig), (s, t, r) in sorted(worst.items(), key=lambda kv: len(kv[1][0])):
-        if reported >= 6:
+    reported = set()
+    cands = sorted(worst.items(), key=lambda kv: len(kv[1][0]))
+    for (v, sig), (s, t, r) in cands:
+        if len(reported) >= 6:
             break
-        reported += 1
         found = True
         if v == "panic":
+            reported.add(t)
             ctx.violation("C04 parser panicked on %r" % t, {"property": "C04", "kind": "panic", "input": t, "result": r, "seed": ctx.seed})
             continue
         small = shrink(bindir, gr, s, v)
         ts = text_of(small)
+        if ts in reported:
+            continue
+        reported.add(ts)
         rr = parse_flat(bindir, [ts])[0]
         if v == "rejected":
             ctx.violation("C04 a sentence of the documented grammar gets syntax errors: %r -> %s" % (ts, rr["errors"][:2]),
